@@ -23,6 +23,9 @@ def make_files(rng, impl):
             items.append(("P", protos[0], gen.rand_points(rng, protos[0], 9)))
         if not any(i[0] == "B" for i in items):
             items.append(("B", rng.bytes(55)))
+        # a zero-length blob in every file: its extraction reads only the section header, so it shows
+        # whether the operation really starts with its own seek
+        items.insert(rng.range(0, len(items)), ("B", b""))
         o = core.run_one(impl, "FW - " + " ".join(c01.item_tok(i) for i in items) + " DUMP")
         outs = o.split(" | ")[0].split()
         dev = bytes.fromhex(o.split(" dev=")[1].strip())
@@ -40,6 +43,7 @@ def make_files(rng, impl):
                 off, n = r[1:].split(":")
                 ops.append("B:%s:%s" % (off, n))
                 ops.append("B:%s:%d" % (off, int(n) + 40))
+                ops.append("B:%s:0" % off)          # zero-length descriptor on any blob section
         files.append(dict(dev=dev, ops=ops))
     return files
 
